@@ -185,6 +185,10 @@ func (g *tagger) hexAddress(name string, w *world) string {
 		kit.NewAccount([]byte{'a', 0}).Addr}
 	names := []string{"registeredERC20", "unregisteredERC20", "coinERC20", "twinERC20", "endpoint", "packet", "staking", "agent", "precompile4", "precompile5", "precompile9",
 		"zero", "module", "eoa"}
+	for k, a := range w.tokOdd {
+		pool = append(pool, a)
+		names = append(names, "oddERC20:"+w.tokOddName[k])
+	}
 	i := rapid.IntRange(0, len(pool)-1).Draw(g.t, name)
 	switch names[i] {
 	case "registeredERC20", "unregisteredERC20", "coinERC20", "twinERC20", "eoa":
